@@ -382,7 +382,7 @@ func (t *tr) block(b *ssa.BasicBlock, heaps map[string]string) {
 			t.freshVsHeap(R, r, heaps)
 			t.allocs = append(t.allocs, allocInfo{r, x})
 			ln, cp := t.v(x.Len), t.v(x.Cap)
-			t.oblige("safe", t.nameAt("makeslice", x.Pos(), pickCall), R, fmt.Sprintf("(and (<= 0 %s) (<= %s %s) (<= %s 72057594037927936))", ln, ln, cp, cp), x.Pos())
+			t.oblige("safe", t.nameAt("makeslice", x.Pos(), pickCall), R, fmt.Sprintf("(and (<= 0 %s) (<= %s %s) (<= %s 144115188075855872))", ln, ln, cp, cp), x.Pos())
 			el := x.Type().Underlying().(*types.Slice).Elem()
 			tag := t.eng.sliceTag(x.Type())
 			for _, ls := range uniq(leaves(el)) {
